@@ -132,10 +132,43 @@ func (r *Result) requireAtSites(f *Flow, rule string, sites []ssa.CallInstructio
 			}
 		}
 		if !o.OK {
-			o.Detail = r.explain(f, call.Parent(), call.Block(), o.Missing)
+			var leaves []string
+			for _, a := range o.Missing {
+				leaves = append(leaves, missingLeaves(f, st, a, 0)...)
+			}
+			o.Detail = "missing underived atoms: " + strings.Join(leaves, ", ") + ". " + r.explain(f, call.Parent(), call.Block(), leaves)
 		}
 		r.add(o)
 	}
+}
+
+// missingLeaves expands a missing derived atom into the underived atoms that
+// are absent (choosing, per head, the derivation with the fewest gaps).
+func missingLeaves(f *Flow, st AtomSet, a Atom, depth int) []string {
+	var best []string
+	found := false
+	for _, d := range f.RS.Derive {
+		if d.Head != a {
+			continue
+		}
+		var gaps []string
+		for _, b := range d.Body {
+			if !st.Has(b) {
+				if depth < 4 {
+					gaps = append(gaps, missingLeaves(f, st, b, depth+1)...)
+				} else {
+					gaps = append(gaps, b)
+				}
+			}
+		}
+		if !found || len(gaps) < len(best) {
+			best, found = gaps, true
+		}
+	}
+	if !found {
+		return []string{a}
+	}
+	return best
 }
 
 func (r *Result) explain(f *Flow, fn *ssa.Function, blk *ssa.BasicBlock, missing []string) string {
@@ -185,7 +218,11 @@ func (r *Result) requireAtReturns(f *Flow, rule string, fn *ssa.Function, errIdx
 			}
 		}
 		if !o.OK {
-			o.Detail = r.explain(f, body, sr.Ret.Block(), o.Missing)
+			var leaves []string
+			for _, a := range o.Missing {
+				leaves = append(leaves, missingLeaves(f, sr.State, a, 0)...)
+			}
+			o.Detail = "missing underived atoms: " + strings.Join(leaves, ", ") + ". " + r.explain(f, body, sr.Ret.Block(), leaves)
 		}
 		r.add(o)
 	}
